@@ -174,7 +174,7 @@ func c09(p *model.Prog, r *report.Result) {
 		if ph, ok := model.Unwrap(v).(*ssa.Phi); ok && ph.Comment == "codecId" {
 			return true
 		}
-		return model.DependsOn(v, isCallOf(videoCodec))
+		return model.CopyOf(v, isCallOf(videoCodec))
 	})
 	same := func(a, b map[int64]bool) bool {
 		if len(a) != len(b) || len(a) == 0 {
@@ -194,72 +194,75 @@ func c09(p *model.Prog, r *report.Result) {
 	r.Rule("C09.R3", "Frame.Pack writes packet[0]=0x47, packet[1] |= (Pid>>8)&0x1F, packet[2] = Pid&0xFF, packet[3] = 0x10|(Cc&0x0F) and increments Cc once per packet")
 	pack := p.Method("pkg/mpegts", "Frame", "Pack")
 	var okSync, okHi, okLo, okCc, okInc bool
-	model.EachInstr(pack, func(in ssa.Instruction) {
-		st, ok := in.(*ssa.Store)
-		if !ok {
-			return
-		}
-		if f := model.FieldOf(st.Addr); f != nil && f.Name() == "Cc" {
-			if b, isB := st.Val.(*ssa.BinOp); isB && b.Op == token.ADD {
-				if k, isK := model.ConstInt(b.Y); isK && k == 1 {
-					okInc = true
+	// Pack and the same-package helpers it calls (a header writer may be factored out)
+	for _, packFn := range model.StaticGroup(pack, 1) {
+		model.EachInstr(packFn, func(in ssa.Instruction) {
+			st, ok := in.(*ssa.Store)
+			if !ok {
+				return
+			}
+			if f := model.FieldOf(st.Addr); f != nil && f.Name() == "Cc" {
+				if b, isB := st.Val.(*ssa.BinOp); isB && b.Op == token.ADD {
+					if k, isK := model.ConstInt(b.Y); isK && k == 1 {
+						okInc = true
+					}
 				}
 			}
-		}
-		ia, ok := st.Addr.(*ssa.IndexAddr)
-		if !ok {
-			return
-		}
-		i, isK := model.ConstInt(ia.Index)
-		if !isK {
-			return
-		}
-		switch i {
-		case 0:
-			if v, isC := model.ConstInt(st.Val); isC && v == 0x47 {
-				okSync = true
+			ia, ok := st.Addr.(*ssa.IndexAddr)
+			if !ok {
+				return
 			}
-		case 1:
-			if model.DependsOn(st.Val, func(v ssa.Value) bool {
-				b, ok := v.(*ssa.BinOp)
-				if !ok || b.Op != token.AND {
-					return false
-				}
-				k, isK := model.ConstInt(b.Y)
-				sh, isSh := b.X.(*ssa.BinOp)
-				if !isK || k != 0x1f || !isSh || sh.Op != token.SHR {
-					return false
-				}
-				s, _ := model.ConstInt(sh.Y)
-				return s == 8 && model.IsLoadOfField(sh.X, framePid)
-			}) {
-				okHi = true
+			i, isK := model.ConstInt(ia.Index)
+			if !isK {
+				return
 			}
-		case 2:
-			if model.DependsOn(st.Val, func(v ssa.Value) bool {
-				b, ok := v.(*ssa.BinOp)
-				if !ok || b.Op != token.AND {
-					return false
+			switch i {
+			case 0:
+				if v, isC := model.ConstInt(st.Val); isC && v == 0x47 {
+					okSync = true
 				}
-				k, isK := model.ConstInt(b.Y)
-				return isK && k == 0xff && model.IsLoadOfField(b.X, framePid)
-			}) {
-				okLo = true
-			}
-		case 3:
-			if model.DependsOn(st.Val, func(v ssa.Value) bool {
-				b, ok := v.(*ssa.BinOp)
-				if !ok || b.Op != token.AND {
-					return false
+			case 1:
+				if model.DependsOn(st.Val, func(v ssa.Value) bool {
+					b, ok := v.(*ssa.BinOp)
+					if !ok || b.Op != token.AND {
+						return false
+					}
+					k, isK := model.ConstInt(b.Y)
+					sh, isSh := b.X.(*ssa.BinOp)
+					if !isK || k != 0x1f || !isSh || sh.Op != token.SHR {
+						return false
+					}
+					s, _ := model.ConstInt(sh.Y)
+					return s == 8 && model.IsLoadOfField(sh.X, framePid)
+				}) {
+					okHi = true
 				}
-				k, isK := model.ConstInt(b.Y)
-				f := model.LoadedField(b.X)
-				return isK && k == 0x0f && f != nil && f.Name() == "Cc"
-			}) {
-				okCc = true
+			case 2:
+				if model.DependsOn(st.Val, func(v ssa.Value) bool {
+					b, ok := v.(*ssa.BinOp)
+					if !ok || b.Op != token.AND {
+						return false
+					}
+					k, isK := model.ConstInt(b.Y)
+					return isK && k == 0xff && model.IsLoadOfField(b.X, framePid)
+				}) {
+					okLo = true
+				}
+			case 3:
+				if model.DependsOn(st.Val, func(v ssa.Value) bool {
+					b, ok := v.(*ssa.BinOp)
+					if !ok || b.Op != token.AND {
+						return false
+					}
+					k, isK := model.ConstInt(b.Y)
+					f := model.LoadedField(b.X)
+					return isK && k == 0x0f && f != nil && f.Name() == "Cc"
+				}) {
+					okCc = true
+				}
 			}
-		}
-	})
+		})
+	}
 	for _, c := range []struct {
 		ok   bool
 		name string
